@@ -193,7 +193,14 @@ def run_solver_case(ctx, case):
                 for k, n in enumerate(names)]
         else:
             kwargs["ready_operations_filter"] = gen.make_filter(filt)
-    solver = DispatchingRuleSolver(arg, ch_arg, **kwargs)
+    solver_cls = DispatchingRuleSolver
+    if case["seed"] % 3 == 0:
+        # a user's own solver class derived from the library's: its name goes into the metadata
+        class TunedRuleSolver(DispatchingRuleSolver):
+            pass
+        solver_cls = TunedRuleSolver
+        ctx.count("subclassed_solver_runs")
+    solver = solver_cls(arg, ch_arg, **kwargs)
     ctx.count("solver_runs")
     ctx.count("rule_" + (rule.get("name") or rule["type"]))
 
@@ -337,8 +344,9 @@ def run_solver_case(ctx, case):
         et = S.metadata.get("elapsed_time")
         if not isinstance(et, float) or not math.isfinite(et) or et < 0 or et > wall + 1e-6:
             ctx.violation("c04_elapsed_time_metadata", {"elapsed_time": et, "measured_wall": wall})
-        if S.metadata.get("solved_by") != "DispatchingRuleSolver":
-            ctx.violation("c04_solved_by_metadata", {"solved_by": S.metadata.get("solved_by")})
+        if S.metadata.get("solved_by") != solver_cls.__name__:
+            ctx.violation("c04_solved_by_metadata", {"solved_by": S.metadata.get("solved_by"),
+                                                     "solver_class": solver_cls.__name__})
     ctx.note_case(case, state["nontrivial"], fingerprint=str(hash(
         (gen.fingerprint(inst), str(rule), chooser, str(filt), api))))
     ctx.count("class_" + inst["cls"])
